@@ -137,3 +137,55 @@ Proof. vm_compute. auto. Qed.
 Example queries_exist :
   existsb (fun e => let '(_, m, k, l) := e in is_query m k && match l with [] => false | _ => true end) method_assigns = true.
 Proof. vm_compute. reflexivity. Qed.
+
+(* ------------------------------------------------------------------ 5. the objects an isotherm HOLDS: Material and Adsorbate *)
+(* to_dict() of an isotherm embeds material.to_dict() (name + property dictionary) and str(adsorbate) (name). Generated table
+   holder_methods: for EVERY method of the two classes the names it writes on the object and the methods / properties of the class
+   it reaches through self. The closure of the writes over the calls is computed here; a getter (property or plain method - not the
+   constructor, not a property setter) must not write a name the exported content is read from, neither itself nor through a helper:
+   reading a material / adsorbate property (directly, or by an accessor converting to another material basis) cannot change to_dict,
+   hence neither the documents nor the identifier. *)
+Definition hentry := (string * string * string * list string * list string)%type.
+Definition hkey (m k : string) : string := if String.eqb k "setter" then "set:" ++ m else m.
+Definition hlookup (c x : string) (tab : list (string * string * list string)) : list string :=
+  flat_map (fun e => let '(c', key, w) := e in if String.eqb c c' && String.eqb x key then w else []) tab.
+Definition hstep (tab : list (string * string * list string)) : list (string * string * list string) :=
+  map (fun e : hentry => let '(c, m, k, w, calls) := e in
+                         (c, hkey m k, nodup string_dec (w ++ flat_map (fun x => hlookup c x tab) calls))) holder_methods.
+Definition htab0 : list (string * string * list string) :=
+  map (fun e : hentry => let '(c, m, k, w, _) := e in (c, hkey m k, nodup string_dec w)) holder_methods.
+Fixpoint hiter (n : nat) (tab : list (string * string * list string)) :=
+  match n with O => tab | S n => hiter n (hstep tab) end.
+(* every name a method may write on the object, directly or through the methods of the class it reaches *)
+Definition holder_writes : list (string * string * list string) := hiter (length holder_methods) htab0.
+(* the names the exported content of a held object is read from *)
+Definition content_names : list string := ["name"; "alias"; "properties"; "properties[]"].
+Definition is_getter (k : string) : bool := String.eqb k "property" || String.eqb k "method".
+Definition holder_getters_pure_b : bool :=
+  forallb (fun e : hentry => let '(c, m, k, _, _) := e in
+                             negb (is_getter k) || forallb (fun a => negb (mem a content_names)) (hlookup c (hkey m k) holder_writes))
+          holder_methods.
+
+Theorem holder_getters_pure c m k w calls a :
+  In (c, m, k, w, calls) holder_methods -> is_getter k = true -> In a (hlookup c (hkey m k) holder_writes) -> ~ In a content_names.
+Proof.
+  intros H G Ha. assert (B : holder_getters_pure_b = true) by (vm_compute; reflexivity).
+  unfold holder_getters_pure_b in B. rewrite forallb_forall in B. specialize (B _ H). cbn beta iota in B.
+  rewrite G in B. cbn [negb orb] in B. rewrite forallb_forall in B. specialize (B _ Ha).
+  intros I. apply mem_In in I. rewrite I in B. discriminate.
+Qed.
+
+(* the table of writes is closed: one more propagation step over the calls adds nothing, and it contains the direct writes *)
+Example holder_writes_closed : hstep holder_writes = holder_writes.
+Proof. vm_compute. reflexivity. Qed.
+Example holder_writes_direct :
+  forallb (fun e : hentry => let '(c, m, k, w, _) := e in forallb (fun a => mem a (hlookup c (hkey m k) holder_writes)) w) holder_methods = true.
+Proof. vm_compute. reflexivity. Qed.
+(* not vacuous: the table sees the writes that exist - the density setter writes the property dictionary, the CoolProp state getter
+   caches its state on the adsorbate, and a method reaching that getter inherits the write *)
+Example holder_writes_seen :
+  hlookup "Material" "set:density" holder_writes = ["properties[]"] /\
+  mem "_state" (hlookup "Adsorbate" "backend" holder_writes) = true /\
+  mem "_state" (hlookup "Adsorbate" "molar_mass" holder_writes) = true /\
+  existsb (fun e : hentry => let '(_, _, k, _, _) := e in is_getter k) holder_methods = true.
+Proof. vm_compute. auto. Qed.
